@@ -19,7 +19,7 @@ import (
 // C17 — Enum columns keep their declared value set and order.
 
 var evC17 = ev.New("C17", "declared value lists of 1..300 values (sizes biased to 1, 2, 63-65, 127-129, 191-193, 254-257; >255 must be rejected) in an order different from the alphabet, data inside and outside the list, "+
-	"derived enums with up to 260 distinct values, nulls; construction through New ([]string, []*string, ConstString), ReadCSV (Types+EnumValues) and ReadJSON (Enums); then < <= > >= = != against declared and undeclared constants, "+
+	"derived enums with up to 260 distinct values (exactly 254..257 forced in 1/8 of the cases), nulls; configuration maps optionally reused for two constructions; construction through New ([]string, []*string, ConstString), ReadCSV (Types+EnumValues) and ReadJSON (Enums); then < <= > >= = != against declared and undeclared constants, "+
 	"in-lists touching ranks 63/64/127/128/191/192/254, like/ilike, Sort with all flag combinations and EnumView read-out; oracle: model with rank = position in the declared list, Err for undeclared data / undeclared filter constants / more than 255 values; "+
 	"non-trivial = declared list of >=64 values with data at rank >=64, or cardinality 254..257; distinct = FNV-64 of (declared list size+order seed, data, path, operation)")
 
